@@ -116,10 +116,10 @@
 //     `none` is nil, `some t` a value whose dynamic type prints as `t` —
 //     and methods called on them are opaque calls;
 //   - a keyed literal `T{f: v}` / `&T{f: v}` of a translated struct type is a
-//     structure instance (`some …` for `&`), omitted fields are zero; spec
-//     files with the object form of "symbolic" evaluate the given fields in the
-//     order of the literal and refuse calls in dropped fields, the others
-//     evaluate in the order of the structure's fields;
+//     structure instance (`some …` for `&`), omitted fields are zero; the
+//     given fields are evaluated in the order of the literal; fields of abstract
+//     type are left out as in the structure itself (in a traced function a
+//     call in such a field is a translation error);
 //   - with "drop_abstract" (the treatment TrC19 was written against, instead
 //     of AbsPtr / Unit values, see below), `v := <ident or selector>` /
 //     `v := f(…)` for a `v` of abstract type
@@ -158,7 +158,10 @@
 //   - []error literals, append on them and errors.Join are lists of optional
 //     texts and "first non-nil" (errors.Join is non-nil iff an element is);
 //   - opaque calls and reads from abstract objects are not allowed inside
-//     loops (one parameter cannot stand for a different result per iteration);
+//     loops (one parameter cannot stand for a different result per iteration)
+//     unless the function has "loop_opaque": then one parameter does stand for
+//     the result in every iteration (theorems about such a loop hold under
+//     that reading only; TrC16's Upload);
 //   - any other call is *opaque*: its result becomes an extra parameter of the
 //     Lean definition (`o<k>_<callee>`, one per call site, in order of
 //     appearance) and, when "trace" is set, the definition also returns the
@@ -186,6 +189,22 @@
 //   - "trace_repr" records trace arguments of structure / option / list type
 //     as `reprStr <value>` instead of "_", and an argument `x.f` of abstract
 //     type, x of a translated struct type, as "field:f".
+//   - with "trace", a store to a map element `m[k] = v` is an effect recorded
+//     as ("set m[k]", [k, fields of v…]) (scalar fields of a translated struct
+//     in declaration order, "nil" for a nil pointer); a store to a field of
+//     abstract type of a translated struct (`rec.Time = start`) is recorded
+//     like a write to an abstract object: ("set rec.Time", ["start"]);
+//   - "out" lists local variables (typically pointers the function mutates
+//     through, `rec.Queries++`) whose final value is returned after the
+//     declared results; they start as their zero value;
+//   - `for k, v := range m` over a map with translatable key and element
+//     types is goRange over an extra parameter `e<k>_<m>_entries : List (K × V)`
+//     — the entries in the order the run time happens to choose, so theorems
+//     hold for every order (opaque calls in the loop body need "loop_opaque");
+//   - "range_body" translates, instead of the whole function, the body of its
+//     first `for k, v := range …` statement as a function of the loop
+//     variables (one iteration; `continue` ends it) — the way to state the
+//     per-element rule of a loop over a map, whose order is unspecified.
 //
 // Anything else is a translation error: the generated definition is replaced
 // by a marker that makes the Tie theorem fail, i.e. a broken obligation.
@@ -262,6 +281,13 @@ type TrFunc struct {
 	// Names represents values of abstract type by symbolic names (Strings)
 	// instead of their nil-ness; see the header comment.
 	Names bool `json:"names,omitempty"`
+	// Out lists local variables whose final value is returned as well.
+	Out []string `json:"out,omitempty"`
+	// RangeBody translates the body of the first range statement only.
+	RangeBody bool `json:"range_body,omitempty"`
+	// LoopOpaque allows opaque calls and reads from abstract objects inside
+	// range loops: one parameter then stands for the result in every iteration.
+	LoopOpaque bool `json:"loop_opaque,omitempty"`
 }
 
 type trSpecFile struct {
@@ -583,7 +609,7 @@ var leanKeywords = map[string]bool{"end": true, "from": true, "fun": true, "at":
 	"notation": true, "infix": true, "prefix": true, "postfix": true, "deriving": true, "extends": true, "using": true,
 	"calc": true, "return": true, "for": true, "mut": true, "try": true, "catch": true, "finally": true, "unless": true,
 	"nomatch": true, "nofun": true, "Prop": true, "Sort": true, "set_option": true, "attribute": true, "universe": true,
-	"inductive": true, "abbrev": true, "example": true, "axiom": true, "opaque": true, "omit": true, "include": true}
+	"inductive": true, "rec": true, "abbrev": true, "example": true, "axiom": true, "opaque": true, "omit": true, "include": true}
 
 func leanIdent(s string) string {
 	if s == "_" {
@@ -958,6 +984,10 @@ func (c *fctx) expr(e ast.Expr) ex {
 			return c.bindN([]ex{a}, func(s []string) string { return "(-" + s[0] + ")" })
 		case token.ADD:
 			return a
+		case token.AND:
+			if _, isLit := x.X.(*ast.CompositeLit); isLit {
+				return c.bindN([]ex{a}, func(s []string) string { return "(some " + s[0] + ")" })
+			}
 		}
 		fail("unary %s", x.Op)
 	case *ast.BinaryExpr:
@@ -977,9 +1007,6 @@ func (c *fctx) expr(e ast.Expr) ex {
 		if n, ok := types.Unalias(c.typeOf(x)).(*types.Named); ok {
 			if st, ok := n.Underlying().(*types.Struct); ok {
 				if lt := c.t.structType(n, st); lt != "" {
-					if c.t.symb != nil {
-						return c.structLitOrdered(x, st)
-					}
 					return c.structLit(x, st, lt)
 				}
 			}
@@ -1060,81 +1087,50 @@ func (c *fctx) expr(e ast.Expr) ex {
 	return ex{}
 }
 
-// structLit translates a keyed literal of a translated struct type: fields that
-// are not mentioned get their zero value, fields of untranslatable type are
-// dropped (values are evaluated in the order of the fields).
-func (c *fctx) structLit(x *ast.CompositeLit, st *types.Struct, lt string) ex {
-	vals := map[string]ast.Expr{}
-	for _, el := range x.Elts {
-		kv, ok := el.(*ast.KeyValueExpr)
-		if !ok {
-			fail("positional struct literal %s", c.show(x))
-		}
-		vals[kv.Key.(*ast.Ident).Name] = kv.Value
-	}
-	var names []string
-	var xs []ex
-	for i := 0; i < st.NumFields(); i++ {
-		f := st.Field(i)
-		if c.t.leanType(f.Type()) == "" {
-			continue
-		}
-		names = append(names, leanIdent(f.Name()))
-		if v, ok := vals[f.Name()]; ok {
-			xs = append(xs, c.exprAs(v, f.Type()))
-		} else {
-			xs = append(xs, ex{code: c.zero(f.Type())})
-		}
-	}
-	return c.bindN(xs, func(s []string) string {
-		var parts []string
-		for i, n := range names {
-			parts = append(parts, n+" := "+s[i])
-		}
-		return "({ " + strings.Join(parts, ", ") + " } : " + lt + ")"
-	})
-}
-
-// structLitOrdered is the variant of structLit used by spec files that declare
-// symbolic types one by one (C15): a keyed literal `T{f: v, …}` of a translated struct
+// structLit translates a keyed literal `T{f: v, …}` of a translated struct
 // type: the given fields are evaluated in the order of the literal, the other
 // fields are zero; elements of fields the structure does not have (abstract
-// types) must be call-free and are dropped.
-func (c *fctx) structLitOrdered(x *ast.CompositeLit, st *types.Struct) ex {
+// types) are dropped; in traced functions they must be call-free (a dropped call
+// would be a lost effect).
+func (c *fctx) structLit(x *ast.CompositeLit, st *types.Struct, lt string) ex {
 	var xs []ex
 	var names []string
 	given := map[string]bool{}
 	for _, el := range x.Elts {
 		kv, ok := el.(*ast.KeyValueExpr)
 		if !ok {
-			fail("unkeyed struct literal %s", c.show(x))
+			fail("positional struct literal %s", c.show(x))
 		}
+		k := kv.Key.(*ast.Ident).Name
 		ft := c.typeOf(kv.Value)
 		for i := 0; i < st.NumFields(); i++ {
-			if st.Field(i).Name() == kv.Key.(*ast.Ident).Name {
+			if st.Field(i).Name() == k {
 				ft = st.Field(i).Type()
 			}
 		}
+		given[k] = true
 		if c.t.leanType(ft) == "" {
-			if hasCall(kv.Value) {
-				fail("call in dropped field %s", c.show(kv))
+			if c.trace && hasCall(kv.Value) {
+				fail("call in dropped field %s", c.show(kv)) // its trace entry would be lost
 			}
 			continue
 		}
-		xs, names = append(xs, c.exprAs(kv.Value, ft)), append(names, kv.Key.(*ast.Ident).Name)
-		given[kv.Key.(*ast.Ident).Name] = true
+		xs, names = append(xs, c.exprAs(kv.Value, ft)), append(names, leanIdent(k))
 	}
 	return c.bindN(xs, func(s []string) string {
 		var parts []string
 		for i, n := range names {
-			parts = append(parts, leanIdent(n)+" := "+s[i])
+			parts = append(parts, n+" := "+s[i])
 		}
 		for i := 0; i < st.NumFields(); i++ {
 			if f := st.Field(i); !given[f.Name()] && c.t.leanType(f.Type()) != "" {
 				parts = append(parts, leanIdent(f.Name())+" := "+c.zero(f.Type()))
 			}
 		}
-		return "({ " + strings.Join(parts, ", ") + " } : " + c.t.leanType(c.typeOf(x)) + ")"
+		if len(parts) == 0 {
+			return lt + ".mk"
+		}
+		return "({ " + strings.Join(parts, ", ") + " } : " + lt + ")"
 	})
 }
 
@@ -1199,7 +1195,7 @@ func (c *fctx) litEntry(cl *ast.CompositeLit) string {
 // opaqueValue turns an expression the subset cannot express (an element of a
 // slice, a field of a library struct) into an extra parameter holding its value.
 func (c *fctx) opaqueValue(e ast.Expr) ex {
-	if c.loop != nil {
+	if c.loop != nil && !c.spec.LoopOpaque {
 		fail("value %s read from an abstract object inside a loop", c.show(e))
 	}
 	lt := c.t.valType(c.typeOf(e))
@@ -1600,7 +1596,7 @@ func (c *fctx) call(x *ast.CallExpr) ex {
 		}
 	}
 	// opaque call
-	if c.loop != nil {
+	if c.loop != nil && !c.spec.LoopOpaque {
 		// one parameter cannot stand for the results of the call in every iteration
 		fail("opaque call %s inside a loop", c.show(x))
 	}
@@ -1976,6 +1972,9 @@ func (c *fctx) ret(vals []string) string {
 			parts = append(parts, leanIdent(c.recv))
 		}
 		parts = append(parts, vals...)
+		for _, o := range c.spec.Out {
+			parts = append(parts, leanIdent(o))
+		}
 		if c.trace {
 			parts = append(parts, "tr")
 		}
@@ -2079,10 +2078,17 @@ func (c *fctx) rangeLoop(x *ast.RangeStmt, rest []ast.Stmt) string {
 		fail("range with assignment to existing variables")
 	}
 	sl, ok := c.typeOf(x.X).Underlying().(*types.Slice)
-	if !ok || c.t.leanType(c.typeOf(x.X)) == "" {
+	mp, isMap := c.typeOf(x.X).Underlying().(*types.Map)
+	isMap = isMap && c.t.leanType(mp.Key()) != "" && c.t.leanType(mp.Elem()) != ""
+	if (!ok || c.t.leanType(c.typeOf(x.X)) == "") && !isMap {
 		fail("range over %s", c.typeOf(x.X))
 	}
-	elT := c.t.leanType(sl.Elem())
+	elT := ""
+	if isMap {
+		elT = "(" + c.t.leanType(mp.Key()) + " × " + c.t.leanType(mp.Elem()) + ")"
+	} else {
+		elT = c.t.leanType(sl.Elem())
+	}
 	// carried variables
 	var vars, varTypes []string
 	seen := map[string]bool{}
@@ -2155,7 +2161,30 @@ func (c *fctx) rangeLoop(x *ast.RangeStmt, rest []ast.Stmt) string {
 	if id, ok := x.Value.(*ast.Ident); ok && x.Value != nil {
 		val = leanIdent(id.Name)
 	}
-	coll := c.expr(x.X)
+	var coll ex
+	mapDestr := ""
+	if isMap {
+		if c.opaqueNodes == nil {
+			c.opaqueNodes = map[ast.Expr]string{}
+		}
+		name, seen := c.opaqueNodes[x.X]
+		if !seen {
+			c.nOpaque++
+			name = fmt.Sprintf("e%d_%s_entries", c.nOpaque, sanitize(lastName(c.show(x.X))))
+			c.opaque = append(c.opaque, fmt.Sprintf("(%s : (List %s))", name, elT))
+			c.opaqueNodes[x.X] = name
+		}
+		coll = ex{code: name}
+		if key != "_" {
+			mapDestr += "let " + key + " := kv.1\n"
+		}
+		if val != "_" {
+			mapDestr += "let " + val + " := kv.2\n"
+		}
+		key, val = "_", "kv"
+	} else {
+		coll = c.expr(x.X)
+	}
 	return c.withEx(coll, func(collCode string) string {
 		savedLoop, savedPartial := c.loop, c.partial
 		c.loop, c.partial = &loopCtx{state: vars}, false
@@ -2174,7 +2203,7 @@ func (c *fctx) rangeLoop(x *ast.RangeStmt, rest []ast.Stmt) string {
 		} else if len(vars) == 1 {
 			destr = "let " + vars[0] + " := st\n"
 		}
-		loop := fmt.Sprintf("%s (σ := %s) (ρ := %s) %s %s fun st (%s : Int) (%s : %s) =>\n%s", fn, sigma, rho, collCode, c.stateTuple(vars), key, val, elT, indent(destr+body))
+		loop := fmt.Sprintf("%s (σ := %s) (ρ := %s) %s %s fun st (%s : Int) (%s : %s) =>\n%s", fn, sigma, rho, collCode, c.stateTuple(vars), key, val, elT, indent(destr+mapDestr+body))
 		after := c.stmts(rest)
 		if bodyPartial {
 			return fmt.Sprintf("match %s with\n| none => none\n| some (.inr r) => «ret»r\n| some (.inl st) =>\n%s", loop, indent(destr+after))
@@ -2266,6 +2295,9 @@ func (c *fctx) stmts(list []ast.Stmt) string {
 		if x.Key == nil && x.Value == nil && isInt(c.typeOf(x.X)) && c.trace && c.loop == nil {
 			return c.countedLoop(x, rest)
 		}
+		if mp, isMap := c.typeOf(x.X).Underlying().(*types.Map); isMap && c.t.leanType(mp.Key()) != "" && c.t.leanType(mp.Elem()) != "" {
+			return c.rangeLoop(x, rest) // goRange over an opaque list of entries
+		}
 		if !c.trace || !c.t.isAbstract(c.typeOf(x.X)) {
 			return c.rangeLoop(x, rest)
 		}
@@ -2309,6 +2341,9 @@ func (c *fctx) stmts(list []ast.Stmt) string {
 			case token.BREAK:
 				return "«step»(.brk " + c.stateTuple(c.loop.state) + ")"
 			}
+		}
+		if c.loop == nil && c.spec.RangeBody && x.Label == nil && x.Tok == token.CONTINUE {
+			return c.stmts(nil)
 		}
 		fail("branch statement %s", x.Tok)
 	case *ast.BlockStmt:
@@ -2857,8 +2892,48 @@ func (c *fctx) assignCode(lhs ast.Expr, code string, k func() string) string {
 		b := leanIdent(base.Name)
 		return fmt.Sprintf("let %s := { %s with %s := %s }\n", b, b, f, code) + k()
 	}
+	if ix, ok := lhs.(*ast.IndexExpr); ok && c.trace {
+		if _, isMap := c.typeOf(ix.X).Underlying().(*types.Map); isMap {
+			c.opaqueVals = nil
+			return fmt.Sprintf("let tr := tr ++ [(%q, [%s] ++ %s)]\n", "set "+c.show(lhs), c.traceArg(ix.Index), c.renderVal(code, c.lhsType(lhs))) + k()
+		}
+	}
 	fail("assignment target %s", c.show(lhs))
 	return ""
+}
+
+// renderVal renders a value for the trace: a list of texts (the scalar fields
+// of a struct in declaration order).
+func (c *fctx) renderVal(code string, t types.Type) string {
+	scalar := func(code string, t types.Type) string {
+		switch c.t.leanType(t) {
+		case "String":
+			return code
+		case "Int", "Bool":
+			return "(toString " + code + ")"
+		}
+		return ""
+	}
+	if r := scalar(code, t); r != "" {
+		return "[" + r + "]"
+	}
+	st, ptr := t, false
+	if p, ok := t.(*types.Pointer); ok {
+		st, ptr = p.Elem(), true
+	}
+	if s, ok := st.Underlying().(*types.Struct); ok && c.t.leanType(t) != "" {
+		var fs []string
+		for i := 0; i < s.NumFields(); i++ {
+			if r := scalar("v."+leanIdent(s.Field(i).Name()), s.Field(i).Type()); r != "" {
+				fs = append(fs, r)
+			}
+		}
+		if ptr {
+			return "(match " + code + " with | none => [\"nil\"] | some v => [" + strings.Join(fs, ", ") + "])"
+		}
+		return "(let v := " + code + "; [" + strings.Join(fs, ", ") + "])"
+	}
+	return "[\"_\"]"
 }
 
 // ---------------------------------------------------------------------------
@@ -3088,10 +3163,23 @@ func (t *translator) translate(sp TrFunc) (fo *funcOut) {
 		}
 		resTypes = append(resTypes, t.valType(v.Type()))
 	}
+	pre := ""
+	for _, o := range sp.Out {
+		var ov types.Object
+		for id, d := range p.info.Defs {
+			if d != nil && id.Name == o && id.Pos() >= fd.Body.Pos() && id.Pos() <= fd.Body.End() && (ov == nil || d.Pos() < ov.Pos()) {
+				ov = d
+			}
+		}
+		if ov == nil || t.leanType(ov.Type()) == "" {
+			fail("out variable %s", o)
+		}
+		resTypes = append(resTypes, t.leanType(ov.Type()))
+		pre += fmt.Sprintf("let %s : %s := %s\n", leanIdent(o), t.leanType(ov.Type()), c.zero(ov.Type()))
+	}
 	if c.trace {
 		resTypes = append(resTypes, "(List (String × List String))")
 	}
-	pre := ""
 	if c.named {
 		for _, v := range c.results {
 			if t.leanType(v.Type()) == "" && sp.Names {
@@ -3104,7 +3192,29 @@ func (t *translator) translate(sp TrFunc) (fo *funcOut) {
 	if c.trace {
 		pre += "let tr : List (String × List String) := []\n"
 	}
-	body := pre + c.stmts(bodyStmts)
+	top := fd.Body.List
+	if sp.RangeBody {
+		var rs *ast.RangeStmt
+		ast.Inspect(fd.Body, func(n ast.Node) bool {
+			if r, ok := n.(*ast.RangeStmt); ok && rs == nil {
+				rs = r
+			}
+			return rs == nil
+		})
+		if rs == nil || rs.Tok != token.DEFINE {
+			fail("range_body: no `for … := range` statement")
+		}
+		for _, e := range []ast.Expr{rs.Key, rs.Value} {
+			if id, ok := e.(*ast.Ident); ok && id.Name != "_" && t.leanType(p.info.Defs[id].Type()) != "" {
+				params = append(params, fmt.Sprintf("(%s : %s)", leanIdent(id.Name), t.leanType(p.info.Defs[id].Type())))
+			}
+		}
+		top = rs.Body.List
+	}
+	if !sp.RangeBody {
+		top = bodyStmts
+	}
+	body := pre + c.stmts(top)
 	rt := "Unit"
 	if len(resTypes) == 1 {
 		rt = resTypes[0]
